@@ -24,7 +24,15 @@ type blk struct {
 	Res int64 `json:"res"`
 }
 
+type hop struct {
+	Add    *blk      `json:"add,omitempty"`    // the k-th add of the history gets id k+1
+	Remove *int      `json:"remove,omitempty"` // id
+	Get    *[3]int64 `json:"get,omitempty"`    // mint, maxt, maxres
+}
+
 type input struct {
+	Kind string `json:"kind,omitempty"` // "" (one layout, one query) | history
+	Ops  []hop  `json:"ops,omitempty"`
 	Blocks []blk `json:"blocks"` // in add order; block k has id k+1
 	Mint   int64 `json:"mint"`
 	Maxt   int64 `json:"maxt"`
@@ -152,6 +160,19 @@ func facts(repo string, w io.Writer) error {
 		return true
 	})
 	fmt.Fprint(w, coqStrList("addSortLess", addRet))
+	// how remove deletes the block from its level
+	rm, err := s.FindFunc("bucketBlockSet.remove")
+	if err != nil {
+		return err
+	}
+	var rmAssigns []string
+	ast.Inspect(rm.Body, func(n ast.Node) bool {
+		if as, ok := n.(*ast.AssignStmt); ok && as.Tok.String() == "=" && len(as.Lhs) == 1 && len(as.Rhs) == 1 {
+			rmAssigns = append(rmAssigns, s.ExprString(as.Lhs[0])+" = "+s.ExprString(as.Rhs[0]))
+		}
+		return true
+	})
+	fmt.Fprint(w, coqStrList("removeAssigns", rmAssigns))
 	return nil
 }
 
@@ -188,6 +209,9 @@ func run(raw json.RawMessage) (c common.Case, err error) {
 	var in input
 	if err := json.Unmarshal(raw, &in); err != nil {
 		return common.Case{}, err
+	}
+	if in.Kind == "history" {
+		return runHistory(in)
 	}
 	bl := make([]store.VerifC15Block, len(in.Blocks))
 	blocksCoq := make([]string, len(in.Blocks))
@@ -298,6 +322,146 @@ func run(raw json.RawMessage) (c common.Case, err error) {
 	return c, nil
 }
 
+// runHistory drives one real bucketBlockSet through add / remove / getFor calls.
+func runHistory(in input) (c common.Case, err error) {
+	set := store.NewVerifC15Set()
+	type cur struct {
+		id uint64
+		b  blk
+	}
+	var have []cur // the blocks the set is supposed to hold
+	nextID := uint64(1)
+	var opsCoq, obsCoq []string
+	type ob struct {
+		Op       string     `json:"op"`
+		Levels   [][]uint64 `json:"levels"`
+		Selected []uint64   `json:"selected,omitempty"`
+		Panic    string     `json:"panic,omitempty"`
+	}
+	var obs []ob
+	gets := 0
+	for _, o := range in.Ops {
+		failed := false
+		outCoq := common.None
+		var sel []uint64
+		panicked := ""
+		var opS string
+		switch {
+		case o.Add != nil:
+			id := nextID
+			nextID++
+			failed = set.Add(store.VerifC15Block{ID: idOf(int(id - 1)), MinTime: o.Add.Min, MaxTime: o.Add.Max, Resolution: o.Add.Res})
+			if knownRes(o.Add.Res) {
+				have = append(have, cur{id, *o.Add})
+			}
+			opsCoq = append(opsCoq, common.App("OAdd", common.App("mkBlock", common.N(id), common.Z(o.Add.Min), common.Z(o.Add.Max), common.Z(o.Add.Res))))
+			opS = fmt.Sprintf("add %d [%d,%d) res %d", id, o.Add.Min, o.Add.Max, o.Add.Res)
+		case o.Remove != nil && *o.Remove > 0:
+			id := uint64(*o.Remove)
+			set.Remove(idOf(int(id - 1)))
+			for i := range have {
+				if have[i].id == id {
+					have = append(have[:i:i], have[i+1:]...)
+					break
+				}
+			}
+			opsCoq = append(opsCoq, common.App("ORemove", common.N(id)))
+			opS = fmt.Sprintf("remove %d", id)
+		case o.Get != nil:
+			mint, maxt, maxres := o.Get[0], o.Get[1], o.Get[2]
+			var out []ulid.ULID
+			func() {
+				defer func() {
+					if r := recover(); r != nil {
+						panicked = fmt.Sprint(r)
+					}
+				}()
+				out = set.GetFor(mint, maxt, maxres)
+			}()
+			gets++
+			opsCoq = append(opsCoq, common.App("OGet", common.Z(mint), common.Z(maxt), common.Z(maxres)))
+			opS = fmt.Sprintf("getFor [%d,%d] maxres %d", mint, maxt, maxres)
+			if panicked == "" {
+				outCoq = common.Some(idsCoq(out))
+				for _, u := range out {
+					sel = append(sel, numOf(u))
+				}
+			}
+			// Go-side evaluation of the four clauses against the blocks currently in the set (search aid)
+			if c.GoPred == "" {
+				byID := map[uint64]blk{}
+				for _, h := range have {
+					byID[h.id] = h.b
+				}
+				seen := map[uint64]bool{}
+				switch {
+				case panicked != "":
+					c.GoPred, c.Sig = "getFor panicked: "+panicked, "panic"
+				default:
+					for _, n := range sel {
+						b, ok := byID[n]
+						switch {
+						case !ok:
+							c.GoPred, c.Sig = fmt.Sprintf("%s returned block %d which is not in the set", opS, n), "removed-block-selected"
+						case seen[n]:
+							c.GoPred, c.Sig = fmt.Sprintf("%s: block %d selected twice", opS, n), "duplicate-block"
+						case b.Res > maxres:
+							c.GoPred, c.Sig = fmt.Sprintf("%s: block %d has resolution %d", opS, n, b.Res), "resolution-exceeded"
+						case !(b.Min <= maxt && mint < b.Max):
+							c.GoPred, c.Sig = fmt.Sprintf("%s: block %d does not overlap the range", opS, n), "no-overlap"
+						}
+						seen[n] = true
+					}
+					if c.GoPred == "" && mint <= maxt && maxt-mint <= 20000 {
+						for t := mint; t <= maxt && c.GoPred == ""; t++ {
+							need, got := uint64(0), false
+							for _, h := range have {
+								if h.b.Res <= maxres && h.b.Min <= t && t < h.b.Max {
+									need = h.id
+									if seen[h.id] {
+										got = true
+									}
+								}
+							}
+							if need != 0 && !got {
+								covered := false
+								for n := range seen {
+									if b := byID[n]; b.Min <= t && t < b.Max {
+										covered = true
+									}
+								}
+								if !covered {
+									c.GoPred = fmt.Sprintf("%s: instant %d is covered by block %d of the set (allowed resolution) but by no selected block", opS, t, need)
+									c.Sig = "not-covered"
+								}
+							}
+						}
+					}
+				}
+			}
+		default:
+			continue
+		}
+		var lv [][]uint64
+		var lvCoq []string
+		for _, l := range set.Levels() {
+			var ids []uint64
+			for _, u := range l {
+				ids = append(ids, numOf(u))
+			}
+			lv = append(lv, ids)
+			lvCoq = append(lvCoq, idsCoq(l))
+		}
+		obsCoq = append(obsCoq, common.Tuple(common.Bool(failed), common.List(lvCoq), outCoq))
+		obs = append(obs, ob{opS, lv, sel, panicked})
+	}
+	c.Coq = common.App("CHistory", common.List(opsCoq), common.List(obsCoq))
+	c.Obs = obs
+	c.Class = "history"
+	c.Nontrivial = gets >= 1 && len(opsCoq) >= 4
+	return c, nil
+}
+
 func sizeClass(n int) string {
 	switch {
 	case n == 0:
@@ -312,8 +476,65 @@ func sizeClass(n int) string {
 
 var resLevels = []int64{downsample.ResLevel0, downsample.ResLevel1, downsample.ResLevel2}
 
+func genHistory(r *rand.Rand, maxOps int) input {
+	in := input{Kind: "history"}
+	ip := func(v int) *int { return &v }
+	var live []int // ids currently in the set
+	nextID := 1
+	add := func(b blk) {
+		in.Ops = append(in.Ops, hop{Add: &b})
+		if knownRes(b.Res) {
+			live = append(live, nextID)
+		}
+		nextID++
+	}
+	query := func() {
+		mint := int64(r.Intn(70)) - 10
+		maxt := mint + int64(r.Intn(50))
+		if r.Intn(4) == 0 {
+			mint, maxt = -5, 100
+		}
+		in.Ops = append(in.Ops, hop{Get: &[3]int64{mint, maxt, common.Pick(r, int64(0), downsample.ResLevel1, downsample.ResLevel2, downsample.ResLevel2, math.MaxInt64)}})
+	}
+	// a resolution holding several blocks in time order, as after a sync
+	base := common.Pick(r, resLevels...)
+	k := 4 + r.Intn(4)
+	for i := 0; i < k; i++ {
+		add(blk{int64(10 * i), int64(10*i + 10), base})
+	}
+	for i := r.Intn(4); i > 0; i-- {
+		a := int64(r.Intn(60))
+		add(blk{a, a + 1 + int64(r.Intn(25)), common.Pick(r, resLevels...)})
+	}
+	for len(in.Ops) < maxOps {
+		switch x := r.Intn(10); {
+		case x < 3 && len(live) > 0: // retention / compaction removes a block, mostly an old one
+			j := 0
+			if r.Intn(3) == 0 {
+				j = r.Intn(len(live))
+			}
+			in.Ops = append(in.Ops, hop{Remove: ip(live[j])})
+			live = append(live[:j], live[j+1:]...)
+			query()
+		case x < 5:
+			a := int64(r.Intn(80))
+			b := blk{a, a + 1 + int64(r.Intn(25)), common.Pick(r, resLevels...)}
+			if r.Intn(15) == 0 {
+				b.Res = 1000 // unsupported: add fails
+			}
+			add(b)
+		default:
+			query()
+		}
+	}
+	return in
+}
+
 func gen(r *rand.Rand, tier string, n int) []any {
 	var out []any
+	for i := 0; i < n/5; i++ {
+		out = append(out, genHistory(r, 10+r.Intn(12)))
+	}
 	maxBlocks := 10
 	if tier == "thorough" {
 		maxBlocks = 24
